@@ -205,19 +205,7 @@ func vC14GenRR(r *rand.Rand, typ string, h dns.RR_Header, unknownType uint16) vC
 	case "NSEC":
 		n := nm()
 		types := []uint16{dns.TypeA, dns.TypeNS, dns.TypeRRSIG, dns.TypeNSEC, 1234}[:1+r.Intn(5)]
-		h.Rrtype = dns.TypeNSEC
-		rr := &dns.NSEC{Hdr: h, NextDomain: n, TypeBitMap: types}
-		// the bitmap octets, taken from the library's own packing of this record
-		buf := make([]byte, 1024)
-		off, err := dns.PackRR(rr, buf, 0, nil, false)
-		nb := make([]byte, 300)
-		noff, err2 := dns.PackDomainName(n, nb, 0, nil, false)
-		ob := make([]byte, 300)
-		ooff, err3 := dns.PackDomainName(h.Name, ob, 0, nil, false)
-		if err != nil || err2 != nil || err3 != nil {
-			panic("nsec pack")
-		}
-		return vC14RR{rr, "NSEC", []vC14F{vC14FN(n), vC14FB(buf[ooff+10+noff : off])}}
+		return vC14NSEC(h, n, types)
 	case "RRSIG", "SIG":
 		cov, a, l, ot, ex, in, kt, n, sg := u16(), uint8(r.Intn(256)), uint8(r.Intn(5)), r.Uint32(), r.Uint32(), r.Uint32(), u16(), nm(), vC14RandBytes(r, 8+r.Intn(30))
 		inner := dns.RRSIG{Hdr: h, TypeCovered: cov, Algorithm: a, Labels: l, OrigTtl: ot, Expiration: ex, Inception: in, KeyTag: kt, SignerName: n, Signature: base64.StdEncoding.EncodeToString(sg)}
@@ -241,6 +229,23 @@ func vC14GenRR(r *rand.Rand, typ string, h dns.RR_Header, unknownType uint16) vC
 		h.Rrtype = unknownType
 		return vC14RR{&dns.RFC3597{Hdr: h, Rdata: fmt.Sprintf("%x", d)}, "RFC3597", []vC14F{vC14FB(d)}}
 	}
+}
+
+// vC14NSEC builds an NSEC record and its RDATA fields.
+func vC14NSEC(h dns.RR_Header, n string, types []uint16) vC14RR {
+	h.Rrtype = dns.TypeNSEC
+	rr := &dns.NSEC{Hdr: h, NextDomain: n, TypeBitMap: types}
+	// the bitmap octets, taken from the library's own packing of this record
+	buf := make([]byte, 1024)
+	off, err := dns.PackRR(rr, buf, 0, nil, false)
+	nb := make([]byte, 300)
+	noff, err2 := dns.PackDomainName(n, nb, 0, nil, false)
+	ob := make([]byte, 300)
+	ooff, err3 := dns.PackDomainName(h.Name, ob, 0, nil, false)
+	if err != nil || err2 != nil || err3 != nil {
+		panic("nsec pack")
+	}
+	return vC14RR{rr, "NSEC", []vC14F{vC14FN(n), vC14FB(buf[ooff+10+noff : off])}}
 }
 
 // vC14VaryRR returns a record that canonicalises to the same octets as x
@@ -1037,6 +1042,7 @@ func TestVerifC14Sig(t *testing.T) {
 		return cheap[r.Intn(len(cheap))]
 	}
 	vC14Probes(tr, r, cheap)
+	vC14ReplayCorpus(t, tr, cheap[0])
 	// every key once with a correctly signed RRset, spread over the run so that the
 	// expensive ones land in different evaluation shards
 	every := max(1, n/(len(keys)+1))
@@ -1063,6 +1069,33 @@ func TestVerifC14Sig(t *testing.T) {
 		default:
 			vC14CaseMsg(tr, r, cheap)
 		}
+	}
+}
+
+// ---- fixed regression inputs (corpus/C14/regressions.json)
+
+func vC14ReplayCorpus(t *testing.T, tr *vC14Trace, key *vC14SigKey) {
+	corpus := vC14LoadCorpus(t)
+	for _, c := range corpus.Nsec {
+		s := &vC14Scn{key: key, zone: c.Zone, k: key.dnskey(c.Zone, 257)}
+		for _, nx := range c.Next {
+			h := dns.RR_Header{Name: c.Owner, Class: dns.ClassINET, Ttl: 3600}
+			s.set = append(s.set, vC14NSEC(h, nx, []uint16{dns.TypeA, dns.TypeRRSIG, dns.TypeNSEC}))
+		}
+		tag, _ := vC14LibKeyTag(s.k)
+		s.sig = &dns.RRSIG{Hdr: dns.RR_Header{Name: c.Owner, Rrtype: dns.TypeRRSIG, Class: dns.ClassINET, Ttl: 3600}, TypeCovered: dns.TypeNSEC, Algorithm: key.alg,
+			Labels: c.Labels, OrigTtl: 3600, Expiration: vC14Expiration, Inception: vC14Inception, KeyTag: tag, SignerName: c.Zone}
+		if !s.resign() {
+			t.Fatalf("corpus: nsec entry %q cannot be signed", c.Note)
+		}
+		vC14EmitSigned(tr, s, "corpus")
+		vC14EmitVerify(tr, key, s, "valid-corpus")
+	}
+	for _, c := range corpus.Suffix {
+		vC14EmitSuffix(tr, c.A, c.B)
+	}
+	for _, c := range corpus.Synth {
+		vC14EmitSynth(tr, c.Owner, c.Target, c.Dnames)
 	}
 }
 
@@ -1133,6 +1166,10 @@ func vC14CaseSigned(tr *vC14Trace, r *rand.Rand, keys []*vC14SigKey) {
 	if len(s.notes) > 0 {
 		shape += "+" + strings.Join(s.notes, "+")
 	}
+	vC14EmitSigned(tr, s, shape)
+}
+
+func vC14EmitSigned(tr *vC14Trace, s *vC14Scn, shape string) {
 	set := vC14RRs(s.set)
 	var got []byte
 	var err error
@@ -1903,16 +1940,30 @@ func vC14CaseMsg(tr *vC14Trace, r *rand.Rand, cheap []*vC14SigKey) {
 // ---- isSynthesizedCNAME and internal/dnsname.CompareSuffix on their own
 
 func vC14CaseSynth(tr *vC14Trace, r *rand.Rand) {
-	nm := func() string {
-		if r.Intn(4) == 0 {
-			return vC14OddName(r)
-		}
-		return vC14MixCase(r, vC14Name(r, r.Intn(5)))
+	for i := 0; i < 4; i++ {
+		vC14CaseSuffix(tr, r)
 	}
-	// CompareSuffix: related names (one an ancestor / sibling of the other) and unrelated ones
-	a := nm()
-	b := nm()
-	switch r.Intn(4) {
+	for i := 0; i < 3; i++ {
+		vC14CaseSynthOne(tr, r)
+	}
+}
+
+func vC14WellFormed(s string) bool { _, ok := dns.IsDomainName(s); return ok && dns.IsFqdn(s) }
+
+func vC14OddOrName(r *rand.Rand) string {
+	if r.Intn(4) == 0 {
+		return vC14OddName(r)
+	}
+	return vC14MixCase(r, vC14Name(r, r.Intn(6)))
+}
+
+// vC14CaseSuffix: CompareSuffix on related names (ancestor, case variant, sibling under a
+// shared ancestor, the same labels with one in the middle replaced — equal labels that are
+// not part of the shared suffix must not count) and on unrelated ones.
+func vC14CaseSuffix(tr *vC14Trace, r *rand.Rand) {
+	a := vC14OddOrName(r)
+	b := vC14OddOrName(r)
+	switch r.Intn(6) {
 	case 0:
 		b = vC14MixCase(r, vC14Label(r)+"."+a)
 	case 1:
@@ -1921,31 +1972,43 @@ func vC14CaseSynth(tr *vC14Trace, r *rand.Rand) {
 		if idx := dns.Split(a); len(idx) > 1 {
 			b = vC14Label(r) + "." + a[idx[1+r.Intn(len(idx)-1)]:]
 		}
+	case 3, 4: // one label replaced, the labels to its left kept
+		if idx := dns.Split(a); len(idx) > 1 {
+			k := 1 + r.Intn(len(idx)-1)
+			end := len(a)
+			if k+1 < len(idx) {
+				end = idx[k+1]
+			}
+			b = vC14MixCase(r, a[:idx[k]]+vC14Label(r)+"x."+a[end:])
+			if r.Intn(3) == 0 {
+				b = vC14Label(r) + "." + b
+			}
+		}
 	}
 	if r.Intn(2) == 0 {
 		a, b = b, a
 	}
+	vC14EmitSuffix(tr, a, b)
+}
+
+func vC14EmitSuffix(tr *vC14Trace, a, b string) {
 	var n, lib int
 	fail := ""
 	if p := vC14Guard(func() { n = dnsname.CompareSuffix(a, b) }); p != "" {
 		fail = "CompareSuffix panicked: " + p
 	}
-	wellFormed := func(s string) bool { _, ok := dns.IsDomainName(s); return ok && dns.IsFqdn(s) }
 	vC14Guard(func() { lib = dns.CompareDomainName(a, b) })
-	if fail == "" && wellFormed(a) && wellFormed(b) && n != lib {
+	wf := vC14WellFormed(a) && vC14WellFormed(b)
+	if fail == "" && wf && n != lib {
 		fail = fmt.Sprintf("CompareSuffix(%q, %q) = %d, dns.CompareDomainName = %d", a, b, n, lib)
 	}
-	tr.emit("suffix", fmt.Sprintf("CaseSuffix %s %s %d %d %s", vC14Str(a), vC14Str(b), n, lib, vC14Bool(wellFormed(a) && wellFormed(b))), fail, true, map[string]any{"a": a, "b": b, "shared": n, "lib": lib})
+	tr.emit("suffix", fmt.Sprintf("CaseSuffix %s %s %d %d %s", vC14Str(a), vC14Str(b), n, lib, vC14Bool(wf)), fail, true, map[string]any{"a": a, "b": b, "shared": n, "lib": lib})
+}
 
-	// isSynthesizedCNAME
-	var dn []*dns.DNAME
+func vC14CaseSynthOne(tr *vC14Trace, r *rand.Rand) {
 	var pairs [][2]string
-	var dcoq []string
 	for i := 0; i < 1+r.Intn(3); i++ {
-		o, t := vC14MixCase(r, vC14Name(r, r.Intn(4))), vC14Name(r, 1+r.Intn(2))
-		dn = append(dn, &dns.DNAME{Hdr: dns.RR_Header{Name: o, Rrtype: dns.TypeDNAME, Class: dns.ClassINET}, Target: t})
-		pairs = append(pairs, [2]string{o, t})
-		dcoq = append(dcoq, fmt.Sprintf("(%s, %s)", vC14Str(o), vC14Str(t)))
+		pairs = append(pairs, [2]string{vC14MixCase(r, vC14Name(r, r.Intn(4))), vC14Name(r, 1+r.Intn(2))})
 	}
 	d := pairs[r.Intn(len(pairs))]
 	lbl := vC14Label(r)
@@ -1956,7 +2019,7 @@ func vC14CaseSynth(tr *vC14Trace, r *rand.Rand) {
 	if d[0] == "." {
 		owner = lbl + "."
 	}
-	switch r.Intn(6) {
+	switch r.Intn(8) {
 	case 0:
 		target = lbl + "x." + d[1]
 	case 1:
@@ -1967,19 +2030,39 @@ func vC14CaseSynth(tr *vC14Trace, r *rand.Rand) {
 	case 3:
 		owner, target = "a."+owner, "a."+target
 	case 4:
-		owner = nm()
+		owner = vC14OddOrName(r)
+	case 5: // the DNAME owner with one label replaced: equal labels, not an ancestor
+		if idx := dns.Split(d[0]); len(idx) > 1 {
+			k := 1 + r.Intn(len(idx)-1)
+			end := len(d[0])
+			if k+1 < len(idx) {
+				end = idx[k+1]
+			}
+			owner = lbl + "." + d[0][:idx[k]] + "zz." + d[0][end:]
+		}
+	}
+	vC14EmitSynth(tr, owner, target, pairs)
+}
+
+func vC14EmitSynth(tr *vC14Trace, owner, target string, pairs [][2]string) {
+	var dn []*dns.DNAME
+	var dcoq []string
+	for _, p := range pairs {
+		dn = append(dn, &dns.DNAME{Hdr: dns.RR_Header{Name: p[0], Rrtype: dns.TypeDNAME, Class: dns.ClassINET}, Target: p[1]})
+		dcoq = append(dcoq, fmt.Sprintf("(%s, %s)", vC14Str(p[0]), vC14Str(p[1])))
 	}
 	cn := &dns.CNAME{Hdr: dns.RR_Header{Name: owner, Rrtype: dns.TypeCNAME, Class: dns.ClassINET}, Target: target}
 	var got bool
-	fail = ""
+	fail := ""
 	if p := vC14Guard(func() { got = isSynthesizedCNAME(cn, dn) }); p != "" {
 		fail = "isSynthesizedCNAME panicked: " + p
 	}
 	ref := false
 	vC14Guard(func() { ref = vC14RefSynth(owner, target, pairs) })
-	if fail == "" && wellFormed(owner) && got != ref {
+	wf := vC14WellFormed(owner)
+	if fail == "" && wf && got != ref {
 		fail = fmt.Sprintf("isSynthesizedCNAME(%q -> %q) = %v, RFC 6672 substitution with the library's helpers says %v", owner, target, got, ref)
 	}
-	tr.emit("synth", fmt.Sprintf("CaseSynth %s %s [%s] %s %s %s", vC14Str(owner), vC14Str(target), strings.Join(dcoq, "; "), vC14Bool(got), vC14Bool(ref), vC14Bool(wellFormed(owner))), fail, true,
+	tr.emit("synth", fmt.Sprintf("CaseSynth %s %s [%s] %s %s %s", vC14Str(owner), vC14Str(target), strings.Join(dcoq, "; "), vC14Bool(got), vC14Bool(ref), vC14Bool(wf)), fail, true,
 		map[string]any{"owner": owner, "target": target, "dnames": pairs, "got": got, "ref": ref})
 }
